@@ -81,7 +81,8 @@ def judge_apply(ap, res, mon, text, part):
         err = float(np.max(np.abs(got - ap["duts"][f]))) \
             if np.all(np.isfinite(got)) else float("inf")
         worst = max(worst, err)
-    rel = worst / (TOL * (1 + ap["kappa"]))
+    tol = 1e-10 if getattr(sc, "iterative", False) else TOL
+    rel = worst / (tol * (1 + ap["kappa"]))
     part["maxima"]["apply_err_over_tol"] = max(
         part["maxima"].get("apply_err_over_tol", 0.0), rel)
     cnt["apply_checked"] = cnt.get("apply_checked", 0) + 1
@@ -179,6 +180,31 @@ def work(chunk_id, payload):
                          sum(1 for t in g.tags.values() if t == "probe"),
                          i, str(ea)[:400], str(eb)[:400]),
                 script=text))
+        # ---- solved unknown parameters evaluate to the truth
+        for uc in g.unknown_checks:
+            sv, ev = res.ev(uc["solve"]), res.ev(uc["line"])
+            seen = mon.values_seen.get(uc["line"])
+            if sv is None or ev is None or sv.get("ret") != 0 or \
+                    seen != (True, True):
+                continue
+            cnt["unknown_values_checked"] = cnt.get(
+                "unknown_values_checked", 0) + 1
+            worst = 0.0
+            for got in ev.get("ret") or [[float("inf"), 0]]:
+                z = complex(got[0], got[1])
+                worst = max(worst, abs(z - uc["truth"])
+                            if np.isfinite(z) else float("inf"))
+            rel = worst / (1e-11 * (1 + uc["kappa"]))
+            part["maxima"]["unknown_err_over_tol"] = max(
+                part["maxima"].get("unknown_err_over_tol", 0.0), rel)
+            if not rel <= 1.0:
+                part["violations"].append(dict(
+                    key="%s:solved-unknown-value:vnacal_get_parameter_value"
+                        % PROP,
+                    desc="unknown reflect solved at line %d: truth %r, "
+                         "vnacal_get_parameter_value -> %r" % (
+                             uc["solve"], uc["truth"], ev.get("ret")),
+                    script=text))
         # ---- applied through returned indices
         for ap in g.applies:
             judge_apply(ap, res, mon, text, part)
@@ -197,9 +223,9 @@ def main():
     chk = R.Check(PROP)
     binary = chk.build("asan")
     if chk.tier == "quick":
-        total, nops, nchunks = 960, 100, 32
+        total, nops, nchunks = 1600, 100, 32
     else:
-        total, nops, nchunks = 16000, 100, 128
+        total, nops, nchunks = 20000, 100, 160
     total = max(nchunks, int(total * chk.args.scale))
     per = max(1, total // nchunks)
     payloads = [(chk.seed, per, nops, binary, chk.workroot)
